@@ -35,17 +35,8 @@ func NewFileWriter(filePath string, maxBlockSize int) (*FileWriter, error) {
 		buffer:   NewWriteBuffer(maxBlockSize),
 	}
 
-	// Check if file exists
-	if _, err := os.Stat(filePath); os.IsNotExist(err) {
-		// Create new file
-		if err := fw.createNewFile(); err != nil {
-			return nil, err
-		}
-	} else {
-		// Open existing file for appending
-		if err := fw.openExistingFile(); err != nil {
-			return nil, err
-		}
+	if err := fw.openOrCreate(); err != nil {
+		return nil, err
 	}
 
 	return fw, nil
@@ -65,20 +56,25 @@ func NewFileWriterWithName(filePath string, maxBlockSize int, swampName string) 
 		swampName: swampName,
 	}
 
-	// Check if file exists
-	if _, err := os.Stat(filePath); os.IsNotExist(err) {
-		// Create new V3 file with name
-		if err := fw.createNewFile(); err != nil {
-			return nil, err
-		}
-	} else {
-		// Open existing file for appending (preserve format)
-		if err := fw.openExistingFile(); err != nil {
-			return nil, err
-		}
+	if err := fw.openOrCreate(); err != nil {
+		return nil, err
 	}
 
 	return fw, nil
+}
+
+// openOrCreate opens the file for appending if it exists and creates it otherwise.
+func (fw *FileWriter) openOrCreate() error {
+	if _, err := os.Stat(fw.filePath); os.IsNotExist(err) {
+		return fw.createNewFile()
+	}
+	err := fw.openExistingFile()
+	if errors.Is(err, io.EOF) || errors.Is(err, io.ErrUnexpectedEOF) {
+		// The file ends inside its header or swamp name: its creation was
+		// interrupted before any block could be written. Start it afresh.
+		return fw.createNewFile()
+	}
+	return err
 }
 
 // createNewFile creates a new .hyd file with header.
@@ -139,13 +135,58 @@ func (fw *FileWriter) openExistingFile() error {
 	fw.blockCount = fw.header.BlockCount
 	fw.entryCount = fw.header.EntryCount
 
+	// A crash or a failed write can leave a torn block at the end of the file.
+	// Appending behind it would hide every later block from the reader, so cut
+	// the file back to the end of its last complete block first.
+	validEnd, size, err := findValidEnd(file, fw.header)
+	if err != nil {
+		file.Close()
+		return err
+	}
+	if validEnd < size {
+		if err := file.Truncate(validEnd); err != nil {
+			file.Close()
+			return err
+		}
+	}
+
 	// Seek to end for appending
-	if _, err := file.Seek(0, io.SeekEnd); err != nil {
+	if _, err := file.Seek(validEnd, io.SeekStart); err != nil {
 		file.Close()
 		return err
 	}
 
 	return nil
+}
+
+// findValidEnd walks the block headers and returns the offset just past the last
+// block that is completely present in the file, together with the file size.
+func findValidEnd(file *os.File, header *FileHeader) (validEnd int64, size int64, err error) {
+	info, err := file.Stat()
+	if err != nil {
+		return 0, 0, err
+	}
+	size = info.Size()
+	pos := header.DataStartOffset()
+	if pos > size {
+		return 0, size, io.ErrUnexpectedEOF
+	}
+	headerBuf := make([]byte, BlockHeaderSize)
+	for pos+BlockHeaderSize <= size {
+		if _, err := file.ReadAt(headerBuf, pos); err != nil {
+			return 0, size, err
+		}
+		var bh BlockHeader
+		if err := bh.Deserialize(headerBuf); err != nil {
+			return 0, size, err
+		}
+		next := pos + BlockHeaderSize + int64(bh.CompressedSize)
+		if next > size {
+			break
+		}
+		pos = next
+	}
+	return pos, size, nil
 }
 
 // WriteEntry adds an entry to the buffer and flushes if necessary
